@@ -45,6 +45,7 @@ PROP = {
         "Momo.Pool.C09_single_state",
         "Momo.Pool.C09_mergeFrom_dll",
         "Momo.Pool.C09_list_ops_dll",
+        "Momo.Pool.C09_deallocIf_throw_exact",
     ],
     "harnesses": [
         {"name": name, "src": "c09_pool.cpp", "sanitize": "asan",
@@ -52,7 +53,8 @@ PROP = {
          "flags": ["-DC09_PART=" + part] + ([] if part == "1" else ["-O0"])}
         for name, part in _PARTS
     ],
-    "rule": ("layout: configurations (requested size, alignment, blockCount in {1,2,3,5,32,127}) chosen by seed - all alignments 1..32 and "
+    "rule": ("DeallocateIf is also run with a filter that throws at its (k+1)-th question (model line `dift`: the state must be that of a complete call whose filter answers no from then on; reported count = live blocks afterwards). "
+             "layout: configurations (requested size, alignment, blockCount in {1,2,3,5,32,127}) chosen by seed - all alignments 1..32 and "
              "48,64,100,128,255,256,257,272,384,512,1000,1023,1024 first, then random 1..1024; sizes around 2A, exact multiples with both parities of "
              "S/A, random 1..300; for each configuration EVERY base residue modulo S*N (step = the manager alignment) when there are at most ~420 "
              "(thorough ~2600), otherwise all residues near multiples of S plus random ones; every real pvNewBuffer is checked block by block "
